@@ -28,7 +28,6 @@ pub const SPEC: PropSpec = PropSpec {
         ("drain.entries", 1_000, 40_000),
         ("drain.stayed", 1_000, 40_000),
         ("target.at_floor_after_seeding", 1_000, 40_000),
-        ("target.at_ceiling", 1_000, 40_000),
         ("backoff.held_by_delivered_floor", 1_000, 40_000),
         ("growth.capped_by_2x_measured", 1_000, 40_000),
         ("growth.at_6pct", 1_000, 40_000),
